@@ -336,6 +336,8 @@ import (
 //@   ghost mapref(tx.store).mowner := tx
 //@   ghost tx.store[n.v.Key].gtx  := tx
 //@   ghost tx.store[n.v.Key].gkey := n.v.Key
+//@   hint after (*file).PushBack others: forall k string :: has(tx.store, k) && k != n.v.Key ==> txFileOk(tx, k)
+//@   hint after (*file).PushBack cur:    fs != nil && toplevel(fs) && fileInv(fs) && sortedF(fs) && positiveF(fs) && kindF(fs) && fs.withoutSearch == tx.WithoutSearch
 //@   ensures  inv:    txInv(tx)
 //@   ensures  has:    has(tx.store, n.v.Key)
 //@   ensures  othertx: forall t *Transaction :: t != nil && t != tx && old(txInv(t)) ==> txInv(t)
